@@ -7,8 +7,9 @@ Template directives (each starts a line; see DESIGN.md 2.4 E1-E7):
       <requires/ensures/decreases clauses, copied verbatim after the signature>
   //@loop <k>
       <invariant/decreases clauses, inserted between the k-th loop header and its '{'>
-  //@loop_start <k>
-      <text inserted right after the '{' of the k-th loop body (proof blocks only)>
+  //@loop_start <k> | //@loop_end <k> | //@after_loop <k>
+      <text inserted right after the '{' of the k-th loop body / right before its '}' / right after
+       its '}' (proof blocks only)>
   //@body_start
       <text inserted right after the function's opening '{' (proof blocks only)>
   //@END
@@ -18,6 +19,7 @@ Template directives (each starts a line; see DESIGN.md 2.4 E1-E7):
 
 What extraction changes in a function (complete list; everything else is token-for-token):
   E2  leading `pub` dropped; the fn is placed wherever the directive stands (trait impls are flattened)
+  E2b the return type `-> T` is written `-> (r: T)` (names the result for ensures clauses)
   E3  `format!(..)` -> `verif_msg()`;  `.to_string()` on a &'static str table entry is kept as is
   E5  the clauses above are inserted at the anchored positions
 Any lost anchor raises ScanError (exit 2).
@@ -58,17 +60,22 @@ class Extraction:
         if 'body_start' in sections:
             inserts.append((body_open + 1, '\n' + sections['body_start'].rstrip() + '\n', 1))
         for key, text in sections.items():
-            m = re.match(r'(loop|loop_start)\s+(\d+)$', key)
+            m = re.match(r'(loop|loop_start|loop_end|after_loop)\s+(\d+)$', key)
             if not m:
                 continue
             k = int(m.group(2))
             if k >= len(loops):
                 raise rsscan.ScanError('%s::%s: loop ordinal %d not found (function has %d loops)' % (d.get('impl'), d['fn'], k, len(loops)))
             b = toks[loops[k][1]].start
+            close = toks[rsscan.match_close(toks, loops[k][1])]
             if m.group(1) == 'loop':
                 inserts.append((b, '\n' + text.rstrip() + '\n    ', 0))
-            else:
+            elif m.group(1) == 'loop_start':
                 inserts.append((b + 1, '\n' + text.rstrip() + '\n', 1))
+            elif m.group(1) == 'loop_end':
+                inserts.append((close.start, '\n' + text.rstrip() + '\n', 1))
+            else:
+                inserts.append((close.end, '\n' + text.rstrip() + '\n', 1))
         want_loops = d.get('loops')
         if want_loops is not None and int(want_loops) != len(loops):
             raise rsscan.ScanError('%s::%s: expected %s loops, found %d' % (d.get('impl'), d['fn'], want_loops, len(loops)))
@@ -82,6 +89,19 @@ class Extraction:
                 repl.append((t.start, toks[e].end, 'verif_msg()'))
                 dropped.append('format!')
         text = s.text
+        # E2b: name the return value `r` so that ensures clauses can refer to it: `-> T` becomes `-> (r: T)`
+        depth = 0
+        for j in range(it.kw_tok, it.body_open_k):
+            t = toks[j]
+            if t.kind == 'punct' and t.text in '([':
+                depth += 1
+            elif t.kind == 'punct' and t.text in ')]':
+                depth -= 1
+            elif depth == 0 and t.kind == 'punct' and t.text == '-' and toks[j + 1].text == '>' and toks[j + 1].start == t.end:
+                ty_start = toks[j + 2].start
+                ty_end = toks[it.body_open_k - 1].end
+                repl.append((ty_start, ty_end, '(r: %s)' % text[ty_start:ty_end]))
+                break
         edits = [(a, b, r) for a, b, r in repl] + [(o, o, t) for o, t, _ in sorted(inserts, key=lambda x: (x[0], x[2]))]
         edits.sort(key=lambda x: (x[0], x[1]))
         out = []
